@@ -4,6 +4,7 @@ import (
 	"go/ast"
 	"go/token"
 	"go/types"
+	"sort"
 	"strings"
 
 	"golang.org/x/tools/go/packages"
@@ -193,12 +194,26 @@ func ruleEpcShared(c *Ctx) {
 					if u, ok := r.(*ast.UnaryExpr); ok {
 						r = ast.Unparen(u.X)
 					}
+					isFresh := false
 					if cl, ok := r.(*ast.CompositeLit); ok {
 						if nt := namedOf(info.TypeOf(cl)); nt != nil && sharedTypes[nt.Obj().Name()] {
-							if id, ok := x.Lhs[i].(*ast.Ident); ok {
-								if o := info.Defs[id]; o != nil {
-									fresh[o] = true
+							isFresh = true
+						}
+					}
+					// new(T)
+					if call, ok := r.(*ast.CallExpr); ok && len(call.Args) == 1 {
+						if id, ok := call.Fun.(*ast.Ident); ok && id.Name == "new" {
+							if _, isB := info.ObjectOf(id).(*types.Builtin); isB {
+								if nt := namedOf(info.TypeOf(call.Args[0])); nt != nil && sharedTypes[nt.Obj().Name()] {
+									isFresh = true
 								}
+							}
+						}
+					}
+					if isFresh {
+						if id, ok := x.Lhs[i].(*ast.Ident); ok {
+							if o := info.ObjectOf(id); o != nil {
+								fresh[o] = true
 							}
 						}
 					}
@@ -301,20 +316,59 @@ func ruleEpcShared(c *Ctx) {
 			continue
 		}
 		key := fork + ".BeaconStateView.CopyState"
-		good := false
-		if len(fd.Body.List) == 1 {
-			if r, ok := fd.Body.List[0].(*ast.ReturnStmt); ok && len(r.Results) == 1 {
-				if call, ok := ast.Unparen(r.Results[0]).(*ast.CallExpr); ok && len(call.Args) == 1 {
-					if f := calleeFunc(pk.TypesInfo, call); f != nil && f.Name() == "AsBeaconStateView" && f.Pkg() == pk.Types {
-						if in, ok := ast.Unparen(call.Args[0]).(*ast.CallExpr); ok {
-							if g := calleeFunc(pk.TypesInfo, in); g != nil && g.Name() == "Copy" && isZtyp(g) {
-								good = true
-							}
+		// whichever way it is written: the one thing CopyState calls on the state is ztyp's persistent Copy() of the
+		// receiver's own view, everything else it calls only re-wraps that copy as this fork's view (AsBeaconStateView,
+		// or AsContainer and a literal), and what it returns is of this fork's view type
+		good := true
+		info := pk.TypesInfo
+		var recvObj types.Object
+		if fd.Recv != nil && len(fd.Recv.List) == 1 && len(fd.Recv.List[0].Names) == 1 {
+			recvObj = info.Defs[fd.Recv.List[0].Names[0]]
+		}
+		copies := 0
+		ast.Inspect(fd.Body, func(n ast.Node) bool {
+			call, ok := n.(*ast.CallExpr)
+			if !ok || isConversion(info, call) {
+				return true
+			}
+			f := calleeFunc(info, call)
+			switch {
+			case f == nil:
+				good = false
+			case f.Name() == "Copy" && isZtyp(f):
+				copies++
+				if sel, ok := ast.Unparen(call.Fun).(*ast.SelectorExpr); ok {
+					root := sel.X
+					for {
+						if in, ok := ast.Unparen(root).(*ast.SelectorExpr); ok {
+							root = in.X
+							continue
 						}
+						break
+					}
+					if id, ok := ast.Unparen(root).(*ast.Ident); !ok || info.Uses[id] != recvObj {
+						good = false
 					}
 				}
+			case f.Name() == "AsBeaconStateView" && f.Pkg() == pk.Types:
+			case f.Name() == "AsContainer" && isZtyp(f):
+			default:
+				good = false
 			}
+			return true
+		})
+		if copies != 1 {
+			good = false
 		}
+		ast.Inspect(fd.Body, func(n ast.Node) bool {
+			// a view built by hand must be this fork's
+			if cl, ok := n.(*ast.CompositeLit); ok {
+				if nt := namedOf(info.TypeOf(cl)); nt == nil || nt.Obj().Name() != "BeaconStateView" || nt.Obj().Pkg() != pk.Types {
+					good = false
+				}
+			}
+			return true
+		})
 		if good {
 			c.ok(key, fd.Pos(), "AsBeaconStateView(ContainerView.Copy()) of the same fork")
 		} else {
@@ -423,58 +477,42 @@ func ruleEpcUpkeep(c *Ctx) {
 	pk, fd = c.P.mustFunc("eth2/beacon/altair", "ProcessSyncCommitteeUpdates")
 	info = pk.TypesInfo
 	okNext := false
-	ast.Inspect(fd.Body, func(n ast.Node) bool {
-		// `<epoch> % EPOCHS_PER_SYNC_COMMITTEE_PERIOD` compared with 0, either way round, == or != (early return)
-		be, ok := n.(*ast.BinaryExpr)
-		if !ok || (be.Op != token.EQL && be.Op != token.NEQ) {
-			return true
+	// `<epoch> % EPOCHS_PER_SYNC_COMMITTEE_PERIOD` tested against 0, in any spelling, here or in a helper: a comparison
+	// whose resolved form is the single atom mod(<epoch>, EPOCHS_PER_SYNC_COMMITTEE_PERIOD)
+	for _, st := range collectCmps(c.P)["altair.ProcessSyncCommitteeUpdates"] {
+		if (st.op != token.EQL && st.op != token.NEQ) || len(st.pr) != 1 || st.pr[""] != 0 {
+			continue
 		}
-		var rem *ast.BinaryExpr
-		for _, side := range [][2]ast.Expr{{be.X, be.Y}, {be.Y, be.X}} {
-			r, ok := ast.Unparen(side[0]).(*ast.BinaryExpr)
-			if !ok || r.Op != token.REM || !strings.HasSuffix(types.ExprString(r.Y), "EPOCHS_PER_SYNC_COMMITTEE_PERIOD") {
-				continue
-			}
-			if tv, ok := info.Types[side[1]]; ok && tv.Value != nil && tv.Value.ExactString() == "0" {
-				rem = r
+		dividend := ""
+		for a, cf := range st.pr {
+			if (cf == 1 || cf == -1) && strings.HasPrefix(a, "mod(") && strings.HasSuffix(a, ",EPOCHS_PER_SYNC_COMMITTEE_PERIOD)") {
+				dividend = strings.TrimSuffix(strings.TrimPrefix(a, "mod("), ",EPOCHS_PER_SYNC_COMMITTEE_PERIOD)")
 			}
 		}
-		if rem == nil {
-			return true
+		if dividend == "" {
+			continue
 		}
-		ifs := be
-		// the tested epoch, through its single-definition locals, in normal form: <next epoch> or <current epoch> + 1
-		src := types.ExprString(rem.X)
+		// the tested epoch in normal form: <next epoch> or 1 + <current epoch>
 		isNext := false
-		if sp, ok := exprPoly(info, rem.X, singleDefs(info, fd.Body), nil, 0); ok {
-			src = sp.String()
-			n := 0
-			for a, cf := range sp {
-				if a == "" {
-					continue
-				}
-				n++
-				switch {
-				case cf == 1 && strings.HasSuffix(a, "NextEpoch.Epoch") && sp[""] == 0:
-					isNext = true
-				case cf == 1 && strings.HasSuffix(a, "CurrentEpoch.Epoch") && sp[""] == 1:
-					isNext = true
-				}
-			}
-			if n != 1 {
-				isNext = false
+		terms := strings.Split(dividend, "+")
+		switch {
+		case len(terms) == 1 && strings.HasSuffix(terms[0], "NextEpoch.Epoch") && !strings.ContainsAny(terms[0], "·*-"):
+			isNext = true
+		case len(terms) == 2:
+			sort.Strings(terms)
+			if terms[0] == "1" && strings.HasSuffix(terms[1], "CurrentEpoch.Epoch") && !strings.ContainsAny(terms[1], "·*-") {
+				isNext = true
 			}
 		}
 		key := "ProcessSyncCommitteeUpdates.period-test"
+		okNext = true
 		if isNext {
-			okNext = true
-			c.ok(key, ifs.Pos(), "period boundary tested on the next epoch (%s)", src)
+			c.ok(key, st.pos, "period boundary tested on the next epoch (%s)", dividend)
 		} else {
-			okNext = true
-			c.bad(key, ifs.Pos(), "sync-committee period boundary is tested on %s; the spec tests (current_epoch + 1)", src)
+			c.bad(key, st.pos, "sync-committee period boundary is tested on %s; the spec tests (current_epoch + 1)", dividend)
 		}
-		return true
-	})
+		break
+	}
 	if !okNext {
 		anchorFail("ProcessSyncCommitteeUpdates: period test not found")
 	}
@@ -483,17 +521,31 @@ func ruleEpcUpkeep(c *Ctx) {
 	info = pk.TypesInfo
 	recv := info.Defs[fd.Recv.List[0].Names[0]]
 	key := "RotateEpochs.shift"
+	// (anywhere in the body; `a, b = b, c` moves both at once, which is the same shift)
 	var order []string
-	for _, st := range fd.Body.List {
-		if as, ok := st.(*ast.AssignStmt); ok && len(as.Lhs) == 1 && len(as.Rhs) == 1 {
-			if isRecvField(info, as.Lhs[0], recv, "PreviousEpoch") && isRecvField(info, as.Rhs[0], recv, "CurrentEpoch") {
-				order = append(order, "prev<-cur")
+	ast.Inspect(fd.Body, func(n ast.Node) bool {
+		if _, isLit := n.(*ast.FuncLit); isLit {
+			return false
+		}
+		as, ok := n.(*ast.AssignStmt)
+		if !ok || len(as.Lhs) != len(as.Rhs) {
+			return true
+		}
+		var here []string
+		for i := range as.Lhs {
+			if isRecvField(info, as.Lhs[i], recv, "PreviousEpoch") && isRecvField(info, as.Rhs[i], recv, "CurrentEpoch") {
+				here = append(here, "prev<-cur")
 			}
-			if isRecvField(info, as.Lhs[0], recv, "CurrentEpoch") && isRecvField(info, as.Rhs[0], recv, "NextEpoch") {
-				order = append(order, "cur<-next")
+			if isRecvField(info, as.Lhs[i], recv, "CurrentEpoch") && isRecvField(info, as.Rhs[i], recv, "NextEpoch") {
+				here = append(here, "cur<-next")
 			}
 		}
-	}
+		if len(here) == 2 {
+			here = []string{"prev<-cur", "cur<-next"} // simultaneous
+		}
+		order = append(order, here...)
+		return true
+	})
 	if strings.Join(order, ",") == "prev<-cur,cur<-next" {
 		c.ok(key, fd.Pos(), "previous <- current, then current <- next")
 	} else {
